@@ -423,6 +423,18 @@ func rulesC04(c *Ctx) {
 			c.Check(hasAtom(guards, func(a Atom) bool { return ctxAliveAtom(wr, a, wctx) }), "Write:fail-after-checkResponse-only-if-ctx-alive#"+itoa(m), wr, wg.Node(fv), "c.fail after checkResponse is reached only under ctx.Err() == nil (guards: %s)", atomsString(guards))
 		}
 		c.Pin("fail sites after checkResponse in Write", m, 1)
+		// handleSSE: every site that fails the connection on behalf of a call does so only while that call's context is alive
+		// (the function's own stated policy; its three sites must agree)
+		hs := c.Fn(pM, "streamableClientConn", "handleSSE")
+		hg := hs.Graph()
+		hctx := hs.CtxParam()
+		k := 0
+		for _, fv := range hg.callVertices(failObj) {
+			k++
+			guards := hg.GuardsAt(fv)
+			c.Check(hasAtom(guards, func(a Atom) bool { return ctxAliveAtom(hs, a, hctx) }), "handleSSE:fail-only-if-ctx-alive#"+itoa(k), hs, hg.Node(fv), "c.fail in handleSSE is reached only under ctx.Err() == nil (guards: %s)", atomsString(guards))
+		}
+		c.Pin("fail sites in handleSSE", k, 3)
 	})
 
 	c.Rule("R-C04-9", "one call's fate does not leak into another's: no HTTP round trip is made while a transport mutex is held (a POST the peer does not answer would otherwise block every other Write, Read and Close of that client), and the long-lived subscriptions/listen requests opened by Subscribe and by Connect live on a context of their own, not on the context of the call that opened them", func() {
